@@ -263,6 +263,66 @@ Proof.
   pose proof (Hh s Hs) as H1. apply Rabs_le_inv' in H1. lra.
 Qed.
 
+(* the same for ONE stationary randomised policy whose evaluation equations hold in aggregate
+   (exact evaluation of a mixed policy gives exactly this, with d = 0) *)
+Lemma gain_attained_agg_spec pi g h d s :
+  gain_attained_agg m pi g h d = true -> (s < nS m)%nat ->
+  g s <= sumf (nA m) (fun a => pi s a * Ex m g s a) /\
+  g s + h s <= sumf (nA m) (fun a => pi s a * (Ra m s a + Ex m h s a)) + d.
+Proof.
+  unfold gain_attained_agg. rewrite forallbn_spec. intros H Hs. specialize (H s Hs).
+  apply andb_true_iff in H as [H1 H2]. apply nleb_Rle in H1. apply nleb_Rle in H2. split; assumption.
+Qed.
+
+Theorem gain_attained_stationary pi g h d :
+  wfa -> wfh (stationary pi) -> 0 <= d -> gain_attained_agg m pi g h d = true ->
+  forall T hist s, (s < nS m)%nat ->
+    INR T * (g s - d) + h s - En m (stationary pi) T h hist s <= Jn m (stationary pi) T hist s.
+Proof.
+  intros Wa Wh Hd Hc. induction T; intros hist s Hs.
+  - simpl. numR. lra.
+  - rewrite Jn_S, En_S, S_INR. unfold stationary at 1 3.
+    destruct (gain_attained_agg_spec pi g h d s Hc Hs) as [H1 H2].
+    pose proof (pos_INR T) as HT.
+    assert (Hnn : forall a, (a < nA m)%nat -> 0 <= pi s a) by (intros a Ha; apply (wh_nn _ Wh [] s a Hs Ha)).
+    assert (Hsum : sumf (nA m) (pi s) = 1) by (apply (wh_sum _ Wh [] s Hs)).
+    set (X := fun a => (Ra m s a + Ex m h s a) + INR T * Ex m g s a + - (INR T * d)).
+    (* per action: X a <= (r + P J) + P E *)
+    assert (HX : sumf (nA m) (fun a => pi s a * X a) <=
+                 sumf (nA m) (fun a => pi s a *
+                   ((Ra m s a + sumf (nS m) (fun ns => Pa m s a ns * Jn m (stationary pi) T ((s, a) :: hist) ns))
+                    + sumf (nS m) (fun ns => Pa m s a ns * En m (stationary pi) T h ((s, a) :: hist) ns)))).
+    { apply sumf_le. intros a Ha. cbv beta. apply Rmult_le_compat_l; [auto|].
+      rewrite Rplus_assoc, <- sumf_plus.
+      assert (Hs1 : sumf (nS m) (fun ns => Pa m s a ns * (INR T * (g ns + - d) + h ns))
+                    <= sumf (nS m) (fun ns => Pa m s a ns * Jn m (stationary pi) T ((s, a) :: hist) ns
+                                          + Pa m s a ns * En m (stationary pi) T h ((s, a) :: hist) ns)).
+      { apply sumf_le. intros ns Hns. specialize (IHT ((s, a) :: hist) ns Hns).
+        pose proof (wa_nn Wa s a ns Hs Ha Hns) as Hp.
+        rewrite <- Rmult_plus_distr_l. apply Rmult_le_compat_l; [auto|lra]. }
+      rewrite Ex_affine in Hs1.
+      pose proof (wa_sub Wa s a Hs Ha) as Hsub.
+      assert (INR T * d * sumf (nS m) (Pa m s a) <= INR T * d).
+      { rewrite <- (Rmult_1_r (INR T * d)) at 2. apply Rmult_le_compat_l; [nra|auto]. }
+      unfold X. lra. }
+    (* sum_a pi_a X_a in closed form *)
+    assert (HE : sumf (nA m) (fun a => pi s a * X a) =
+                 sumf (nA m) (fun a => pi s a * (Ra m s a + Ex m h s a))
+                 + INR T * sumf (nA m) (fun a => pi s a * Ex m g s a) - INR T * d).
+    { unfold X.
+      rewrite (sumf_ext _ _ (fun a => (pi s a * (Ra m s a + Ex m h s a) + INR T * (pi s a * Ex m g s a))
+                                      - pi s a * (INR T * d))) by (intros a _; lra).
+      rewrite sumf_minus, sumf_plus, sumf_scal, sumf_scal_r, Hsum. lra. }
+    assert (E : forall (x y : nat -> R),
+               sumf (nA m) (fun a => pi s a * (x a + y a)) =
+               sumf (nA m) (fun a => pi s a * x a) + sumf (nA m) (fun a => pi s a * y a)).
+    { intros x y. rewrite <- sumf_plus. apply sumf_ext. intros; lra. }
+    rewrite E in HX.
+    assert (INR T * g s <= INR T * sumf (nA m) (fun a => pi s a * Ex m g s a))
+      by (apply Rmult_le_compat_l; auto).
+    lra.
+Qed.
+
 (* limit forms: for every eps > 0 the averages are eventually within eps *)
 Lemma eventually_small C eps : 0 < eps -> exists T0 : nat, forall T, (T0 <= T)%nat -> C <= INR T * eps.
 Proof.
@@ -282,8 +342,15 @@ Qed.
 (* ================================================================== *)
 Variable o : @mcout R.
 
-Definition upol (s a : nat) : R :=
-  if psupp (opi o) s a then 1 / INR (pcount m (opi o) s) else 0.
+Definition upol : nat -> nat -> R := upolT m (opi o).
+
+Lemma upol_unfold s a :
+  (0 < pcount m (opi o) s)%nat ->
+  upol s a = if psupp (opi o) s a then 1 / INR (pcount m (opi o) s) else 0.
+Proof.
+  intros Hc. unfold upol, upolT. destruct (psupp (opi o) s a); [|reflexivity].
+  numR. rewrite nofnat_R. apply Rdivg_nz. apply lt_0_INR in Hc. lra.
+Qed.
 
 Lemma psupp_pos s a : psupp (opi o) s a = true <-> 0 < opi o s a.
 Proof. unfold psupp. rewrite nltb_R. numR. tauto. Qed.
@@ -305,7 +372,7 @@ Qed.
 
 Lemma upol_pos s a : 0 < upol s a -> 0 < opi o s a.
 Proof.
-  unfold upol. destruct (psupp (opi o) s a) eqn:E; [intros _; now apply psupp_pos|lra].
+  unfold upol, upolT. destruct (psupp (opi o) s a) eqn:E; [intros _; now apply psupp_pos|numR; lra].
 Qed.
 
 (* on R: availability of the support implies the stationary idealised policy is well-formed *)
@@ -315,13 +382,15 @@ Lemma upol_wfh tol :
   wfh (stationary upol).
 Proof.
   intros Hd Hav. constructor; unfold stationary.
-  - intros _ s a Hs Ha. unfold upol. destruct (psupp (opi o) s a); [|lra].
-    destruct (c_dist_spec tol s Hd Hs) as [Hc _]. apply lt_0_INR in Hc.
-    apply Rlt_le. apply Rdiv_lt_0_compat; lra.
-  - intros _ s Hs. unfold upol. rewrite (sumf_indicator (nA m) (psupp (opi o) s)).
-    destruct (c_dist_spec tol s Hd Hs) as [Hc _]. apply lt_0_INR in Hc.
-    unfold pcount in *. field. lra.
-  - intros _ s a Hs Ha Hna. unfold upol. destruct (psupp (opi o) s a) eqn:E; [|reflexivity].
+  - intros _ s a Hs Ha. destruct (c_dist_spec tol s Hd Hs) as [Hc _].
+    rewrite (upol_unfold s a Hc). destruct (psupp (opi o) s a); [|lra].
+    apply lt_0_INR in Hc. apply Rlt_le. apply Rdiv_lt_0_compat; lra.
+  - intros _ s Hs. destruct (c_dist_spec tol s Hd Hs) as [Hc _].
+    rewrite (sumf_ext _ _ (fun a => if psupp (opi o) s a then 1 / INR (pcount m (opi o) s) else 0))
+      by (intros a _; apply upol_unfold; exact Hc).
+    rewrite (sumf_indicator (nA m) (psupp (opi o) s)).
+    apply lt_0_INR in Hc. unfold pcount in *. field. lra.
+  - intros _ s a Hs Ha Hna. unfold upol, upolT. destruct (psupp (opi o) s a) eqn:E; [|reflexivity].
     apply psupp_pos in E. rewrite (Hav s a Hs Ha E) in Hna. discriminate.
 Qed.
 
@@ -340,13 +409,13 @@ Hypothesis Hchk : c16_gain_check m o c = gain_all_true.
 
 Lemma gclauses :
   wfb m = true /\ gamma m = 1 /\ gain_cert m (cg c) (cw c) (d_up c) = true /\
-  gain_attained_cert m (opi o) (cg c) (oh o) (d_lo c) = true /\
+  (gain_attained_agg m upol (cg c) (ch c) (d_lo c) = true /\ c_avail m (opi o) = true) /\
   c_close m (c_gtol c) (og o) (cg c) = true /\ c_dist m (opi o) (c_ptol c) = true /\
   c_initv m (c_itol c) (oig o) (og o) = true /\ c_initv m (c_itol c) (oiv o) (oh o) = true.
 Proof.
   pose proof Hchk as H. unfold c16_gain_check, gain_all_true in H.
   injection H as H1 H2 H3 H4 H5 H6 H7.
-  apply andb_true_iff in H7 as [H7 H8].
+  apply andb_true_iff in H7 as [H7 H8]. apply andb_true_iff in H4 as [H4 H4'].
   apply neqb_Req in H2. repeat split; try assumption.
 Qed.
 
@@ -357,8 +426,9 @@ Proof. unfold c_close. rewrite forallbn_spec. intros H Hs. apply ncloseb_R. auto
 Theorem mcpi_gain_policy_available s a :
   (s < nS m)%nat -> (a < nA m)%nat -> 0 < opi o s a -> avail m s a = true.
 Proof.
-  intros Hs Ha Hp. destruct gclauses as (_ & _ & _ & H & _).
-  now destruct (gain_attained_cert_spec _ _ _ _ s a H Hs Ha Hp).
+  intros Hs Ha Hp. destruct gclauses as (_ & _ & _ & (_ & H) & _).
+  unfold c_avail in H. rewrite forallbn_spec in H. specialize (H s Hs).
+  rewrite forallbn_spec in H. specialize (H a Ha). apply psupp_pos in Hp. now rewrite Hp in H.
 Qed.
 
 Lemma upol_ok : wfh (stationary upol).
@@ -385,21 +455,44 @@ Proof.
   lra.
 Qed.
 
-(* (b) every policy inside the returned support -- in particular the returned policy evaluated
-       exactly -- collects at least T*(reported gain - slack) - constant *)
+(* (b) the returned policy evaluated exactly (uniform on its support) collects at least
+       T*(reported gain - slack) - constant *)
 Theorem mcpi_gain_attained :
   0 <= d_lo c -> 0 <= c_gtol c ->
   exists W, 0 <= W /\
-    forall pol, wfh pol -> supported pol (opi o) -> forall T hist s, (s < nS m)%nat ->
-      INR T * (og o s - (c_gtol c + d_lo c)) - W <= Jn m pol T hist s.
+    forall T hist s, (s < nS m)%nat ->
+      INR T * (og o s - (c_gtol c + d_lo c)) - W <= Jn m (stationary upol) T hist s.
 Proof.
-  intros Hd Hg. destruct gclauses as (Hwf & _ & _ & Hc & Hcl & _).
+  intros Hd Hg. destruct gclauses as (Hwf & _ & _ & (Hc & _) & Hcl & _).
+  destruct (finite_sup (nS m) (ch c)) as (W & HW0 & HWle & _).
+  exists (2 * W). split; [lra|]. intros T hist s Hs.
+  pose proof (gain_attained_stationary _ _ _ _ (wfb_wfa Hwf) upol_ok Hd Hc T hist s Hs) as H.
+  pose proof (En_bound _ (ch c) W (wfb_wfa Hwf) upol_ok HW0 HWle T hist s Hs) as HE.
+  apply Rabs_le_inv' in HE.
+  pose proof (HWle s Hs) as H1. apply Rabs_le_inv' in H1.
+  pose proof (c_close_spec _ _ _ s Hcl Hs) as Hx. apply Rabs_le_inv' in Hx.
+  pose proof (pos_INR T) as HT.
+  assert (INR T * (og o s - (c_gtol c + d_lo c)) <= INR T * (cg c s - d_lo c))
+    by (apply Rmult_le_compat_l; lra).
+  lra.
+Qed.
+
+(* (b') stronger, when additionally every action of the support is gain-conserving and bias-tight
+        for the REPORTED bias (c16_tight_check, evaluated but not gating): EVERY history-dependent
+        policy inside the returned support attains the gain *)
+Theorem mcpi_gain_attained_support d :
+  c16_tight_check m o c d = true -> 0 <= d -> 0 <= c_gtol c ->
+  exists W, 0 <= W /\
+    forall pol, wfh pol -> supported pol (opi o) -> forall T hist s, (s < nS m)%nat ->
+      INR T * (og o s - (c_gtol c + d)) - W <= Jn m pol T hist s.
+Proof.
+  intros Hc Hd Hg. unfold c16_tight_check in Hc. destruct gclauses as (Hwf & _ & _ & _ & Hcl & _).
   destruct (finite_sup (nS m) (oh o)) as (W & HW0 & HWle & _).
   exists (2 * W). split; [lra|]. intros pol Wh Hsup T hist s Hs.
   pose proof (gain_attained_W _ _ _ _ W pol (wfb_wfa Hwf) Wh Hsup Hd Hc HW0 HWle T hist s Hs) as H.
   pose proof (c_close_spec _ _ _ s Hcl Hs) as Hx. apply Rabs_le_inv' in Hx.
   pose proof (pos_INR T) as HT.
-  assert (INR T * (og o s - (c_gtol c + d_lo c)) <= INR T * (cg c s - d_lo c))
+  assert (INR T * (og o s - (c_gtol c + d)) <= INR T * (cg c s - d))
     by (apply Rmult_le_compat_l; lra).
   lra.
 Qed.
@@ -422,7 +515,7 @@ Proof.
   destruct (eventually_small (W1 + W2) eps He) as (T0 & HT0).
   exists T0. intros T HT s Hs. specialize (HT0 T HT). split.
   - intros pol hist Wh. specialize (Hup pol Wh T hist s Hs). lra.
-  - intros hist. specialize (Hlo (stationary upol) upol_ok upol_supported T hist s Hs). lra.
+  - intros hist. specialize (Hlo T hist s Hs). lra.
 Qed.
 
 Theorem mcpi_gain_initial :
